@@ -86,10 +86,14 @@ impl Frame {
     /// Header fields as logged (body_length saturated to 2^31-1 with a flag).
     pub fn header_json(&self) -> Value {
         let bl = self.body_length as u64;
+        let (el, kl) = (self.extras_length as usize, self.key_length as usize);
+        // the key bytes as sent, for short keys (who wrote / removed which probe item)
+        let key = if kl > 0 && kl <= 16 && self.body.len() >= el + kl { hex(&self.body[el..el + kl]) } else { String::new() };
         json!({
             "magic": self.magic, "op": self.opcode, "kl": self.key_length, "el": self.extras_length,
             "dt": self.data_type, "bl": std::cmp::min(bl, 0x7fff_ffff), "blbig": bl > 0x7fff_ffff,
             "opq": self.opaque.to_string(), "cas": self.cas.to_string(), "sent": self.body.len(),
+            "key": key,
         })
     }
 }
